@@ -44,7 +44,7 @@ def cases(prop, tier, seed):
                 b = int(rs.randint(1, n + 3))
                 if name == "ParallelUtilityEstimationWrapper":
                     b = 1
-                out.append(dict(kind="query", cls=name, dseed=int(rs.randint(1 << 30)), n=n, nl=min(nl, n - 1) if mode != "rows" else min(nl, n),
+                out.append(dict(kind="query", cls=name, dseed=int(rs.randint(1 << 30)), n=n, nl=min(nl, n - 1),
                                 dup=dup, mode=mode, b=b, sseed=int(rs.randint(0, 50)), key=[name, n, nl, dup, mode, b, t]))
         return out
     if prop == "C14":
